@@ -155,6 +155,21 @@ func c04Merge(c *Ctx) {
 				nonNeg := (notX && notY) || (sameNot && (notX || notY))
 				c.R.Checkf(rule, "not-negated@"+site, pos, nonNeg,
 					"merging two negated conditions changes meaning: `!f(a)->o; !f(b)->o` is !(a&&b)->o but the merged `!f(a,b)->o` is !(a||b)->o. The guards dominating the merge (%s) must entail !%s.Not and !%s.Not", strings.Join(atoms, " ∧ "), X, Y)
+				// a condition without values is a catch-all (the internal selectors sub() / node() / subnode());
+				// the union of its value list with a neighbour's is the neighbour's list, i.e. the catch-all is lost
+				nonEmpty := func(fn string) bool {
+					return has(func(gd core.Guard) bool {
+						be, ok := gd.Cond.(*ast.BinaryExpr)
+						if !ok || nospace(core.ExprStr(be.X)) != "len("+fn+".Params)" {
+							return false
+						}
+						y := core.ExprStr(be.Y)
+						return (be.Op == token.GTR && y == "0" && gd.Polarity) || (be.Op == token.NEQ && y == "0" && gd.Polarity) || (be.Op == token.GEQ && y == "1" && gd.Polarity) ||
+							(be.Op == token.EQL && y == "0" && !gd.Polarity)
+					})
+				}
+				c.R.Checkf(rule, "both-value-lists-non-empty@"+site, pos, nonEmpty(X) && nonEmpty(Y),
+					"a condition with no values is a catch-all (sub() / node() / subnode()): merging `f(a)->o; f()->o` into `f(a)->o` loses it. The guards dominating the merge (%s) must entail len(%s.Params) > 0 and len(%s.Params) > 0", strings.Join(atoms, " ∧ "), X, Y)
 			}
 		}
 	}
